@@ -946,3 +946,66 @@ Lemma pinned_pub_ecdsa_refuted :
   let kb := mk_kb KFT_TECPublicKey 0 (Some (mk_kv None (Some (mk_pkv km_empty [])))) 0 0 false in
   decodable_kb kb = true /\ pub_ecdsa_transparent_pinned (km_ec_pub km_empty) = Panic.
 Proof. split; reflexivity. Qed.
+
+(** * Where the builders can panic: only on an RSA private key with fewer than two primes in the
+    transparent format, or inside Go's crypto (elliptic.Marshal on a point off the curve,
+    MarshalPKCS8PrivateKey on an oversized scalar).  In particular the
+    [panic("Unexpected key format")] defaults are unreachable for every selector value. *)
+Theorem build_panic_only_if : forall C kf ver usage i,
+  build C kf ver usage i = Panic ->
+  match i with
+  | RegRsaPriv k => (length (rk_primes k) < 2)%nat \/ marshal_pkcs8 C (PrivRsa k) = Panic
+  | RegEcPriv k => marshal_pkcs8 C (PrivEc k) = Panic
+  | RegEcPub k => ec_marshal C (ep_curve k) (ep_x k) (ep_y k) = None
+  | _ => False
+  end.
+Proof.
+  intros C kf ver usage i H. destruct i as [k|k|k|k|alg v|kind v]; cbn [build] in H.
+  - unfold reg_rsa_priv in H. destruct (_ || _); [discriminate|].
+    destruct (rsa_priv_format_cases kf) as [F|[F|F]]; rewrite F in H.
+    + discriminate.
+    + change (KF_PKCS8 =? KF_PKCS1) with false in H. change (KF_PKCS8 =? KF_PKCS8) with true in H. cbv iota in H.
+      destruct (marshal_pkcs8 C (PrivRsa k)); cbn in H; try discriminate. right; reflexivity.
+    + change (KF_Transparent =? KF_PKCS1) with false in H. change (KF_Transparent =? KF_PKCS8) with false in H.
+      change (KF_Transparent =? KF_Transparent) with true in H. cbv iota in H.
+      left. destruct (rk_primes k) as [|p [|q rest]]; cbn; try lia. cbn in H. discriminate.
+  - unfold reg_rsa_pub in H. destruct (_ || _); [discriminate|].
+    destruct (rsa_pub_format_cases kf) as [F|[F|F]]; rewrite F in H.
+    + discriminate.
+    + change (KF_X509 =? KF_PKCS1) with false in H. change (KF_X509 =? KF_X509) with true in H. cbv iota in H.
+      destruct (marshal_pkix C (PubRsa k)); discriminate.
+    + discriminate.
+  - unfold reg_ec_priv in H. destruct (curve_to_kmip (ek_curve k)) as [[bl crv]|]; [|discriminate].
+    destruct (ecdsa_priv_format_cases kf) as [F|[F|F]]; rewrite F in H.
+    + change (KF_SEC1 =? KF_SEC1) with true in H. cbv iota in H. destruct (marshal_sec1 C k); discriminate.
+    + change (KF_PKCS8 =? KF_SEC1) with false in H. change (KF_PKCS8 =? KF_PKCS8) with true in H. cbv iota in H.
+      destruct (marshal_pkcs8 C (PrivEc k)); cbn in H; try discriminate. reflexivity.
+    + change (KF_Transparent =? KF_SEC1) with false in H. change (KF_Transparent =? KF_PKCS8) with false in H.
+      change (KF_Transparent =? KF_Transparent) with true in H. cbv iota in H.
+      destruct (ver_ge ver V1_3); discriminate.
+  - unfold reg_ec_pub in H. destruct (curve_to_kmip (ep_curve k)) as [[bl crv]|]; [|discriminate].
+    destruct (ecdsa_pub_format_cases kf) as [F|F]; rewrite F in H.
+    + change (KF_X509 =? KF_X509) with true in H. cbv iota in H. destruct (marshal_pkix C (PubEc k)); discriminate.
+    + change (KF_Transparent =? KF_X509) with false in H. change (KF_Transparent =? KF_Transparent) with true in H.
+      cbv iota in H. destruct (ec_marshal C (ep_curve k) (ep_x k) (ep_y k)); [|reflexivity].
+      destruct (ver_ge ver V1_3); discriminate.
+  - unfold reg_symmetric in H. destruct (_ >? _); [discriminate|].
+    destruct (symmetric_format_cases kf) as [F|F]; rewrite F in H; discriminate.
+  - discriminate.
+Qed.
+
+(** The DER entry points are the parser followed by the typed builder: registering the PKCS#1
+    encoding of a key is registering the key (after Precompute). *)
+Lemma der_entry_points : forall C vrsa vrsapub vec vecpub, crypto_laws C vrsa vrsapub vec vecpub ->
+  (forall kf usage k, vrsa k ->
+     reg_pkcs1_priv_der C kf usage (marshal_pkcs1_priv C k) = reg_rsa_priv C kf usage (precompute C k))
+  /\ (forall kf usage k, vrsapub k ->
+     reg_pkcs1_pub_der C kf usage (marshal_pkcs1_pub C k) = reg_rsa_pub C kf usage k)
+  /\ (forall kf ver usage k b, vec k -> marshal_sec1 C k = Some b -> parse_sec1 C b = Some k ->
+     reg_sec1_der C kf ver usage b = reg_ec_priv C kf ver usage k).
+Proof.
+  intros C vrsa vrsapub vec vecpub L. repeat split.
+  - intros kf usage k H. unfold reg_pkcs1_priv_der. rewrite (law_pkcs1_priv _ _ _ _ _ L k H). reflexivity.
+  - intros kf usage k H. unfold reg_pkcs1_pub_der. rewrite (law_pkcs1_pub _ _ _ _ _ L k H). reflexivity.
+  - intros kf ver usage k b _ _ P. unfold reg_sec1_der. rewrite P. reflexivity.
+Qed.
